@@ -44,9 +44,19 @@ class BoomBase(BaseException):
     """an abort that is not an Exception (KeyboardInterrupt, SystemExit, GeneratorExit are of this kind)"""
 
 
-def run_history(k, forest, e0):
+def run_history(k, forest, e0, share=False):
+    """share: every nested region (depth >= 1) is entered with one and the same condition object, as a helper that is
+    called from several enclosing regions does"""
     rt = k.rt
     obs = []
+    shared = {}
+
+    def cond_obj(nm):
+        if not share:
+            return k.S(nm)
+        if nm not in shared:
+            shared[nm] = k.S(nm)
+        return shared[nm]
     rt.ignore_errors(e0)
     counter = [0]
 
@@ -64,6 +74,8 @@ def run_history(k, forest, e0):
         ci = counter[0]
         counter[0] += 1
         nm = "c%d" % ci
+        if share and conds:
+            nm = shared.setdefault("__name__", nm)      # the first nested region's condition serves all nested regions
         c = k.vals[nm]
         before = triple()
 
@@ -89,13 +101,13 @@ def run_history(k, forest, e0):
         entered = True
         try:
             if kind in ("G", "K"):
-                rt.guarded(k.S(nm))(body)()
+                rt.guarded(cond_obj(nm))(body)()
             elif kind in ("I", "J"):
                 br = k.br
                 ctx = br.BranchingValues()
                 ctx.v = 0
                 try:
-                    br._if(k.S(nm), ctx=ctx)
+                    br._if(cond_obj(nm), ctx=ctx)
                 except ValueError:
                     raise RuntimeError("incorrect guard value (not boolean)")
                 body()
@@ -113,7 +125,7 @@ def run_history(k, forest, e0):
                 else:
                     br._endif(ctx=ctx)
             else:
-                bak = rt.add_guard(k.S(nm))
+                bak = rt.add_guard(cond_obj(nm))
                 try:
                     body()
                 finally:
@@ -160,6 +172,22 @@ def build(n=4, tier="quick"):
             name = "hist_%s_e%d" % (shape_name(f), int(e0))
             ents.append(Entry(name, (lambda k, f=f, e0=e0: run_history(k, f, e0)), tuple("c%d" % i for i in range(nc)),
                               assume=(lambda k, nc=nc: _assume(k, nc)), tags={"c08"}))
+    # one condition object entered as a nested guard from several enclosing regions
+    def two(kind_o, kind_i, depth3=False):
+        inner = (kind_i, None, ())
+        if depth3:
+            inner = (kind_i, None, ((kind_i, None, ()),))
+        return ((kind_o, None, (inner,)), (kind_o, None, (inner,)))
+    sh = [two("G", "G"), two("P", "P"), two("I", "I"), two("G", "P"), two("I", "G")]
+    if tier != "quick":
+        sh += [two("G", "G", True), two("P", "G", True), ((("G", None, (("G", None, ()), ("G", None, ()))),)),
+               two("G", "G") + (("G", None, (("P", None, ()),)),)]
+    for f in sh:
+        nc = count(f)
+        for e0 in (False, True):
+            name = "hist_%s_e%d_shared" % (shape_name(f), int(e0))
+            ents.append(Entry(name, (lambda k, f=f, e0=e0: run_history(k, f, e0, share=True)),
+                              tuple("c%d" % i for i in range(nc)), assume=(lambda k, nc=nc: _assume(k, nc)), tags={"c08"}))
     names = [e.name for e in ents]
     assert len(names) == len(set(names))
     return ents
